@@ -48,7 +48,11 @@ import (
 var functions = []string{"issue", "issueSemiFungible", "issueNonFungible"}
 var tokenTypes = []string{core.FungibleESDT, core.SemiFungibleESDT, core.NonFungibleESDT}
 var tickers = []string{"ABC", "ABCDEF", "A1B2C3D4E5"}
-var prefixes = [][3]byte{{0, 0, 0}, {0, 0, 1}, {0, 0, 0x0f}, {0x7f, 0xff, 0xff}, {0xff, 0xff, 0xfe}, {0xff, 0xff, 0xff}}
+var prefixes = [][3]byte{{0, 0, 0}, {0, 0, 1}, {0, 0, 0x0f}, {0x7f, 0xff, 0xff}, {0xff, 0xff, 0xfe}, {0xff, 0xff, 0xff},
+	// only used by the deep unary pass: the wrap ffffff -> 000000 happens in the middle of the retries
+	{0xff, 0xff, 0xd0}}
+
+const numEnumPrefixes = 6
 
 func caller(i int) []byte {
 	a := bytes.Repeat([]byte{byte('1' + i)}, 32)
@@ -298,7 +302,7 @@ func main() {
 		c.Assumptions = []string{
 			"call value == base issuing cost, enough gas, valid token name, no optional properties (argument validation is not the subject)",
 			"registerMetaESDT is not a function of this contract version",
-			"exhaustion of the 50 retries (needs 50 consecutive existing identifiers) is outside the bound",
+			"exhaustion of the 50 retries is reached only by the deep unary pass (the same issue repeated 53 times); mixed histories that long are outside the bound",
 		}
 		if len(c.ReplayData) > 0 {
 			var seq []op
@@ -347,7 +351,7 @@ func main() {
 			for f := range functions {
 				for t := range tickers {
 					for cl := 0; cl < ps.callers; cl++ {
-						for p := range prefixes {
+						for p := range prefixes[:numEnumPrefixes] {
 							ops = append(ops, op{f, t, cl, p})
 						}
 					}
@@ -396,6 +400,37 @@ func main() {
 				in.revert(u1)
 			})
 
+		}
+		// pass (d), both tiers: deep unary histories — the SAME issue repeated 53 times (more than
+		// the 50 collision retries), for every function x ticker x first candidate in
+		// {000000, ffffd0 (wrap in the middle), ffffff}: over a one-letter alphabet every
+		// history up to that length is enumerated. Every successful issue must still get a
+		// fresh well-formed identifier and leave earlier records unchanged; a refusal
+		// (retries exhausted) is allowed. Added after the independent seed C41-1.
+		if !c.Expired() {
+			deepLen := 53
+			for f := range functions {
+				for t := range tickers {
+					for _, p := range []int{0, 6, 5} {
+						in := get()
+						var seq []op
+						var undos []*undo
+						for i := 0; i < deepLen; i++ {
+							o := op{f, t, 0, p}
+							seq = append(seq, o)
+							res, u := in.doOp(c, o)
+							undos = append(undos, u)
+							c.Eval(1)
+							report(c, seq, res)
+						}
+						for i := len(undos) - 1; i >= 0; i-- {
+							in.revert(undos[i])
+						}
+						put(in)
+					}
+				}
+			}
+			c.Bound += "; deep unary histories: the same issue x 53 for 3 functions x 3 tickers x 3 first candidates"
 		}
 		if !c.Quick() {
 			realHasherWitness(c)
